@@ -390,7 +390,17 @@ func compCellT(t types.Type) string        { return "C|" + skey(t) }
 func compMapPT(k, v types.Type) string     { return "MP|" + skey(k) + "|" + skey(v) }
 func compMapVT(k, v types.Type) string     { return "MV|" + skey(k) + "|" + skey(v) }
 func compMapL() string                     { return "ML" }
-func compGhost(n string) string            { return "G|" + n }
+func compGhost(n string) string {
+	if a, ok := ghostAliases[n]; ok {
+		return compFieldT(a.t, a.idx)
+	}
+	return "G|" + n
+}
+
+// ghostAliases: representation declarations (`ghostalias rpos T.field`): the
+// ghost component of that name IS the field component, so a contract that
+// modifies the abstract state modifies the concrete field and vice versa.
+var ghostAliases = map[string]compInfo{}
 
 // embRef is the reference of an array embedded as field k-th embedded array
 // field: negative, injective in (r, k).
